@@ -5,8 +5,8 @@ rm -rf $S; mkdir -p $S; rsync -a --exclude .git --exclude evidence /verif/ $S/
 cd $S
 {
 ./vcheck selftest 2>&1 | grep -v "killed \|silent \|WARN" | tail -8
-for r in seeded seeded/_round2; do /venv/bin/python tools/seedmatrix.py $r >/dev/null 2>&1; python3 tools/matsum.py $r; done
+for r in seeded; do /venv/bin/python tools/seedmatrix.py $r >/dev/null 2>&1; python3 tools/matsum.py $r; done
 /venv/bin/python tools/seedmatrix.py benign >/dev/null 2>&1; python3 tools/matsum.py benign b
 } > /tmp/matsummary.txt 2>&1
-cp $S/seeded/MATRIX.json /tmp/MATRIX_seeded.json; cp $S/seeded/_round2/MATRIX.json /tmp/MATRIX_round2.json; cp $S/benign/MATRIX.json /tmp/MATRIX_benign.json
+cp $S/seeded/MATRIX.json /tmp/MATRIX_seeded.json; cp $S/benign/MATRIX.json /tmp/MATRIX_benign.json
 rm -rf $S
